@@ -214,6 +214,19 @@ def r_drop(ctx, model):
     ctx.check(got == want, "a component that is zero at one volume but not at all is kept", w, expected=str(sorted(want)), found=str(sorted(got)),
               explanation="a component is omitted as soon as it vanishes at a single volume: the filled table no longer holds the invariant tensor at every volume",
               key="drop.partial")
+    # a SUPPLIED component that vanishes at every volume is omitted as well, however its column is spelt (c15 / C15 / C_15-style labels are matched without case)
+    for label in ("c15", "C15"):
+        cols_ = ["c11", "c12", "c44", label]
+        sc1 = Scenario(system="cubic", columns=cols_)
+        run_fill(model, sc1, ctx)
+        zs = {f"X{sc1.lineq_syms.index(s_)}" for s_ in ("c14", "c15", "c16", "c45")} | {f"COL_{label}"}
+        sc = Scenario(system="cubic", columns=cols_, zero=zs)
+        res = run_fill(model, sc, ctx)
+        got = {c_.lower() for c_ in res[1].cols} if res[0] == "ok" else set()
+        ctx.check(res[0] == "ok" and got == want, f"a supplied column {label!r} that vanishes at every volume is omitted", w, expected=str(sorted(want)),
+                  found=str(sorted(res[1].cols)) if res[0] == "ok" else str(res[1]),
+                  explanation=f"a supplied component labelled {label!r} that is below the drop tolerance at every volume stays in the filled table (or another one is lost): "
+                              f"the outcome depends on the letter case of the column labels", key=f"drop.supplied.{label}")
     sc = Scenario(system="cubic", columns=["c11", "c12", "c44"])
     res = run_fill(model, sc, ctx)
     ctx.check(res[0] == "ok" and set(res[1].cols) == set(SYMS21), "every solved symbol is written back", w, expected="21 columns",
